@@ -49,42 +49,42 @@ type Exec struct {
 	vc       *VC
 	ev       *Evaluator
 
-	regs     map[ssa.Value]Val
-	cells    map[*ssa.Alloc]*Cell
+	regs      map[ssa.Value]Val
+	cells     map[*ssa.Alloc]*Cell
 	cellByPos map[token.Pos]*Cell
-	ncell    int
-	out      map[*ssa.BasicBlock]*State
-	pcs      map[*ssa.BasicBlock]T
-	edge     map[*ssa.BasicBlock][]T // edge condition per successor index (includes pc)
-	cur      *State
-	curPC    T
-	curInstr ssa.Instruction
-	curBlock *ssa.BasicBlock
+	ncell     int
+	out       map[*ssa.BasicBlock]*State
+	pcs       map[*ssa.BasicBlock]T
+	edge      map[*ssa.BasicBlock][]T // edge condition per successor index (includes pc)
+	cur       *State
+	curPC     T
+	curInstr  ssa.Instruction
+	curBlock  *ssa.BasicBlock
 
-	entry    map[string]Val // parameter entry values by name
-	entryMem *State         // memory at entry (for old(*p))
-	logical  map[string]Val
+	entry      map[string]Val // parameter entry values by name
+	entryMem   *State         // memory at entry (for old(*p))
+	logical    map[string]Val
 	paramCells map[string]*Cell // pointee cells of pointer params
-	globals  map[*ssa.Global]*Cell
-	globalIn map[string]T
+	globals    map[*ssa.Global]*Cell
+	globalIn   map[string]T
 
-	loops    map[*ssa.BasicBlock]*loopInfo
-	backEdge map[[2]*ssa.BasicBlock]bool
-	kindCount map[string]int
-	callCount map[string]int
-	rsTerms  [][2]T
-	splitVal *int
-	splitDone bool
-	splitRange bool
-	decTerms [][2]T
-	suffix   string
-	srcLines map[string][]string
+	loops       map[*ssa.BasicBlock]*loopInfo
+	backEdge    map[[2]*ssa.BasicBlock]bool
+	kindCount   map[string]int
+	callCount   map[string]int
+	rsTerms     [][2]T
+	splitVal    *int
+	splitDone   bool
+	splitRange  bool
+	decTerms    [][2]T
+	suffix      string
+	srcLines    map[string][]string
 	usedWaivers map[*Waiver]bool
-	warnings []string
-	retCount int
-	oldMem   *State // memory snapshot used for old(*p) while evaluating a callee contract
-	arrayCells map[*Cell]int
-	arrayElem  map[*Cell]MT
+	warnings    []string
+	retCount    int
+	oldMem      *State // memory snapshot used for old(*p) while evaluating a callee contract
+	arrayCells  map[*Cell]int
+	arrayElem   map[*Cell]MT
 }
 
 func (x *Exec) VC() *VC { return x.vc }
